@@ -273,6 +273,20 @@ Proof.
 Qed.
 Print Assumptions decode_faithful_datadog_logs_document.
 
+(* the same for Datadog metrics: {"series":[{metric?, resources:[{k:v..}..], points:[{timestamp, value}..], type}..]} is walked into
+   the series it was written from; one faithful row per point, with the labels __name__ / resource<i>_<key> of its own series *)
+Theorem decode_faithful_datadog_metrics_document :
+  forall fp enc_len CS cache_add cache0 threshold flush_limit ctx_ttl (ws : list wseries),
+  let series := map wseries_series ws in
+  ddmet_document (JObj [("series"%string, JArr (map wseries_doc ws))]) = WOk series /\
+  exists cs, decode fp enc_len CS cache_add cache0 threshold flush_limit ctx_ttl (BDDMet series) = Done cs /\
+             Forall chunk_rect cs /\ rows_of cs = rows_spec fp ctx_ttl (entries_ddmet series).
+Proof.
+  intros. split; [apply ddmet_document_written_l|].
+  exact (decode_faithful_all fp enc_len CS cache_add cache0 threshold flush_limit ctx_ttl (BDDMet series)).
+Qed.
+Print Assumptions decode_faithful_datadog_metrics_document.
+
 (* tags written k1:v1,k2:v2,... -- every key a letter followed by letters, digits and _ - . \ / ; every value a non-empty run of
    those and colons -- are found as exactly that list: none is dropped, merged with its neighbour or cut at a colon of its value *)
 Theorem datadog_tags_read_back :
@@ -359,3 +373,10 @@ Example datadog_document_hypotheses_met :
   dd_document (fun _ => false) dd_int_of (JArr (map wlog_doc ws)) = Some (map wlog_ddlog ws) /\
   map (fun l => List.length (ddlog_labels l)) (map wlog_ddlog ws) = [4; 3]%nat.
 Proof. split; [repeat constructor|split; vm_compute; reflexivity]. Qed.
+
+Example datadog_metrics_document_computes :
+  let ws := [WS (Some "system.load.1"%string) [[("name", "host-a"); ("type", "host")]%string; [("name", "db1")]%string] [(1700000000, 5%N); (1700000010, 7%N)] (fun _ => 0%N) (fun _ => None);
+             WS None [] [] (fun _ => 0%N) (fun _ => None)] in
+  ddmet_document (JObj [("series"%string, JArr (map wseries_doc ws))]) = WOk (map wseries_series ws) /\
+  map (fun s => List.length (ddseries_labels s)) (map wseries_series ws) = [4; 0]%nat.
+Proof. vm_compute. split; reflexivity. Qed.
